@@ -685,6 +685,11 @@ func VerifyFunction(L *Loaded, name string, ct *Contract, prop string) (res *Fun
 // parameters and over the heaps its clauses read.
 func (fr *Frame) assumeLemma(name string, st *State) {
 	vc := fr.vc
+	// `uses G/lemma`: the lemma is a hypothesis of the obligations of proof group G only
+	group := ""
+	if i := strings.Index(name, "/"); i > 0 {
+		group, name = name[:i], name[i+1:]
+	}
 	lc := vc.L.CF.Contracts["lemma:"+name]
 	if lc == nil {
 		fail("uses: no lemma %s", name)
@@ -700,11 +705,24 @@ func (fr *Frame) assumeLemma(name string, st *State) {
 	}
 	var bvs []bv
 	vals := map[string]Val{}
+	defined := map[string]*Clause{}
+	for _, cl := range lc.Requires {
+		if cl.DefGoName != "" {
+			defined[strings.TrimPrefix(cl.Label, "def.")] = cl
+		}
+	}
 	for i, p := range cfn.Params {
+		if defined[p.Name()] != nil {
+			continue
+		}
 		n := fmt.Sprintf("lv!%s!%d", mangle(name), i)
 		s := vc.specialSort(p.Type())
 		bvs = append(bvs, bv{n, s})
 		vals[p.Name()] = TV(Term{S: n, Sort: s})
+	}
+	// defined parameters are placeholders until the heaps are bound (below)
+	for v := range defined {
+		vals[v] = TV(IntLit(0))
 	}
 	// bound variables for the heaps
 	ls := &State{pure: true, reach: True, cells: map[*Cell]Term{}, heaps: map[string]Term{}, armed: map[*ssa.Defer]Term{}}
@@ -738,6 +756,15 @@ func (fr *Frame) assumeLemma(name string, st *State) {
 		return Val{}
 	}
 	vc.pushScope()
+	for v, cl := range defined {
+		df := vc.L.SSA.Func(cl.DefGoName)
+		var args []Val
+		for _, p := range df.Params {
+			args = append(args, vals[p.Name()])
+		}
+		r, _ := fr.evalPure(df, args, ls, nil)
+		vals[v] = r
+	}
 	var reqs, enss []Term
 	for _, cl := range lc.Requires {
 		reqs = append(reqs, fr.evalClauseWith(cl, lookup, ls, nil))
@@ -773,7 +800,17 @@ func (fr *Frame) assumeLemma(name string, st *State) {
 		text = "(! " + text + " " + strings.Join(pats, " ") + ")"
 	}
 	vc.assumptions["lemma "+name+" (proved separately) used as an axiom"] = true
-	st.Assume(T(SBool, "(forall (%s) %s)", strings.Join(decl, " "), text))
+	ax := T(SBool, "(forall (%s) %s)", strings.Join(decl, " "), text)
+	if group != "" {
+		n := vc.freshName("lemma." + mangle(name))
+		vc.decls = append(vc.decls, fmt.Sprintf("(define-fun %s () Bool %s)", n, ax.S))
+		if vc.groupOf == nil {
+			vc.groupOf = map[string]string{}
+		}
+		vc.groupOf[n] = group
+		ax = Term{S: n, Sort: SBool}
+	}
+	st.Assume(ax)
 }
 
 func (fr *Frame) attachAxioms(st *State) {
